@@ -37,13 +37,14 @@ Probe(fn, base, st, typ, adv, stream) ==
   @@ (IF sl.off THEN [offline |-> [keyoff |-> sl.keyoff, keylen |-> sl.keylen, tst |-> (IF fn = "ReadEncryptedLeaseSet" THEN RefEncryptedLeaseSet(base).tst
                                                                                         ELSE IF fn = "ReadLeaseSet2" THEN RefLeaseSet2(base).h.tst ELSE RefMetaLeaseSet(base).h.tst),
                                    sigoff |-> sl.osigoff, siglen |-> sl.osiglen, from |-> sl.from, to |-> sl.to]] ELSE << >>)
-Steps(sl, structural) ==
+Steps(sl, structural, swaps) ==
+  SeqMap(LAMBDA w : [kind |-> "swap", off |-> w.off, la |-> w.la, lb |-> w.lb], swaps) \o
   << [kind |-> "none"], [kind |-> "replace_sig"], [kind |-> "swap_idkey"], [kind |-> "resign_after_edit", off |-> sl.sigoff - 3] >>
   \o (IF sl.off THEN << [kind |-> "forge_offline"], [kind |-> "transplant_offline"], [kind |-> "wrong_scheme"] >> ELSE << >>)
   \o SeqMap(LAMBDA p : [kind |-> "flip", off |-> p, mask |-> 1], FlipPositions(sl, structural))
   \o SeqMap(LAMBDA p : [kind |-> "flip", off |-> p, mask |-> 128], SubSeq(FlipPositions(sl, structural), 1, 6) \o structural)
 Session(fn, base, st, typ, salt) ==
-  LET sl == Slots(fn, base, typ)  steps == Steps(sl, StructuralOffsets(fn, base, typ)) IN
+  LET sl == Slots(fn, base, typ)  steps == Steps(sl, StructuralOffsets(fn, base, typ), PairSwaps(fn, base, typ)) IN
   [ops |-> [k \in 1..Len(steps) |-> Probe(fn, base, st, typ, steps[k], salt * 1000 + k)]]
 
 SigTs == << 7, 11 >>
@@ -52,7 +53,10 @@ Shapes ==
   Concat(SeqMap(LAMBDA st : << << "ReadLeaseSet2", LS2(st, 4, FALSE, 7), st, 0 >>, << "ReadMetaLeaseSet", Meta(st, 4, FALSE, 7), st, 0 >> >>, << 7, 11 >>))
   \o << << "ReadLeaseSet2", LS2(0, 0, FALSE, 7), 0, 0 >>, << "ReadLeaseSet2", LS2(1, 0, FALSE, 7), 1, 0 >>, << "ReadLeaseSet2", LS2(2, 0, FALSE, 7), 2, 0 >> >>
   \o Concat(Cross2(<< 7, 11 >>, << 7, 11, 1 >>, LAMBDA st, tst : << << "ReadLeaseSet2", LS2(st, 4, TRUE, tst), st, 0 >>, << "ReadMetaLeaseSet", Meta(st, 4, TRUE, tst), st, 0 >> >>))
-  \o << << "ReadLeaseSet2", LS2(0, 0, TRUE, 7), 0, 0 >>, << "ReadLeaseSet2", LS2(1, 0, TRUE, 7), 1, 0 >> >>
+  \o << << "ReadLeaseSet2", LS2(0, 0, TRUE, 7), 0, 0 >>, << "ReadLeaseSet2", LS2(1, 0, TRUE, 7), 1, 0 >>, << "ReadLeaseSet2", LS2(2, 0, TRUE, 7), 2, 0 >> >>
+  \* the same for MetaLeaseSet: identities whose offline block the library cannot verify itself must not be waved through
+  \o << << "ReadMetaLeaseSet", Meta(0, 0, TRUE, 7), 0, 0 >>, << "ReadMetaLeaseSet", Meta(1, 0, TRUE, 7), 1, 0 >>, << "ReadMetaLeaseSet", Meta(2, 0, TRUE, 11), 2, 0 >>,
+        << "ReadMetaLeaseSet", Meta(0, 0, FALSE, 7), 0, 0 >>, << "ReadMetaLeaseSet", Meta(1, 0, FALSE, 7), 1, 0 >> >>
   \* Ed25519ph (type 8) transient keys: offline-only type
   \o << << "ReadLeaseSet2", LS2(7, 4, TRUE, 8), 7, 0 >>, << "ReadMetaLeaseSet", Meta(7, 4, TRUE, 8), 7, 0 >>, << "ReadEncryptedLeaseSet", ELS(11, TRUE, 8), 11, 0 >> >>
   \o Concat(SeqMap(LAMBDA st : << << "ReadEncryptedLeaseSet", ELS(st, FALSE, 7), st, 0 >>, << "ReadEncryptedLeaseSet", ELS(st, TRUE, 7), st, 0 >>, << "ReadEncryptedLeaseSet", ELS(st, TRUE, 11), st, 0 >> >>, << 11, 7 >>))
